@@ -238,10 +238,7 @@ theorem wire_hSetH (args : List Bytes) : WireRes (Handler2.hSetH args) := by
   · intro s now ch
     apply wgood_call_all
     intro s o
-    dsimp only
-    split
-    · exact wgood_done_tok _ _ rfl
-    · apply wgood_call_all; intro s o; exact wgood_done_tok _ _ rfl
+    exact wgood_done_tok _ _ rfl
   · exact wire_errReply
 
 theorem wire_hGetH (args : List Bytes) : WireRes (Handler2.hGetH args) := by
